@@ -447,7 +447,7 @@ func main() {
 	r.AddPart(part)
 
 	// ---------- part (b) ----------
-	r.SetBudget(ev.Pick(r, 150*time.Second, 30*time.Minute))
+	r.SetBudget(ev.Pick(r, 300*time.Second, 30*time.Minute))
 	placements := [][]string{{"b:newest"}, {"b:older"}, {"c:only"}, {"b:newest", "c:only"}, {"b:newest", "c:newest"}}
 	for _, pl := range placements {
 		name := "receiver-placement-" + strings.Join(pl, "+")
@@ -468,7 +468,7 @@ func main() {
 					continue
 				}
 				xrun.Explore(r, name, xrun.Opts{Kind: "loop", Bound: ev.Pick(r, 1, 2), Budget: 30, Recycle: 4,
-					Param: loopworld.Cfg{Native: native, OnlyOnce: true, EmptyStart: empty, Corrupt: corrupt, LoadFaults: r.Thorough(), MaxVisits: 1, AppOps: []string{"put-b"}}})
+					Param: loopworld.Cfg{Native: native, OnlyOnce: true, EmptyStart: empty, Corrupt: corrupt, LoadFaults: r.Thorough(), LoopFirst: true, MaxVisits: 1, AppOps: []string{"put-b"}}})
 			}
 		}
 	}
